@@ -6,6 +6,7 @@
 //	c10 gen <out.jsonl> <tier>          generate (seed from VERIF_SEED), corpus first if given as 4th arg
 //	c10 replay <case.json> <out.jsonl>  re-run one stored case
 //	c10 parse <format> <nocolor> <file> parse one output produced by the regal binary
+//	c10 parsebatch <manifest.json>      the same for many outputs (no colours)
 //
 // All strings are written hex-encoded (outputs may contain arbitrary bytes); "q" fields are %q renderings
 // for the human reader of a replay file.
@@ -511,9 +512,45 @@ type GAnn struct {
 type GDoc struct {
 	Pretty PDoc   `json:"pretty"`
 	Anns   []GAnn `json:"anns"`
+	Lines  []H    `json:"lines"` // the workflow command lines as written
 }
 
-var annRe = regexp.MustCompile(`^::(.*?) file=(.*),line=([0-9]+),col=([0-9]+)::(.*)$`)
+// parseWorkflowCommand reads one "::name key=value,key=value::data" line the way the GitHub Actions runner
+// does (ActionCommand.TryParseV2): the first "::" after the prefix ends the command part, properties are
+// split on ',' and on the first '=', and values/data are unescaped (%0D %0A %3A %2C %25, data: %0D %0A %25).
+func parseWorkflowCommand(line string) (name string, props map[string]string, data string, ok bool) {
+	if !strings.HasPrefix(line, "::") {
+		return "", nil, "", false
+	}
+	end := strings.Index(line[2:], "::")
+	if end < 0 {
+		return "", nil, "", false
+	}
+	end += 2
+	info := line[2:end]
+	props = map[string]string{}
+	name = info
+	if sp := strings.IndexByte(info, ' '); sp >= 0 {
+		name = info[:sp]
+		for _, kv := range strings.Split(strings.TrimSpace(info[sp+1:]), ",") {
+			pair := strings.SplitN(kv, "=", 2)
+			if len(pair) == 2 && pair[0] != "" && pair[1] != "" {
+				props[pair[0]] = unescapeWorkflow(pair[1], true)
+			}
+		}
+	}
+	return name, props, unescapeWorkflow(line[end+2:], false), true
+}
+
+func unescapeWorkflow(s string, property bool) string {
+	s = strings.ReplaceAll(s, "%0D", "\r")
+	s = strings.ReplaceAll(s, "%0A", "\n")
+	if property {
+		s = strings.ReplaceAll(s, "%3A", ":")
+		s = strings.ReplaceAll(s, "%2C", ",")
+	}
+	return strings.ReplaceAll(s, "%25", "%")
+}
 
 func parseGitHub(out string, colour bool) (GDoc, error) {
 	if !strings.HasSuffix(out, "\n") {
@@ -521,15 +558,22 @@ func parseGitHub(out string, colour bool) (GDoc, error) {
 	}
 	lines := strings.Split(out[:len(out)-1], "\n")
 	k := len(lines)
-	for k > 0 && annRe.MatchString(lines[k-1]) {
+	for k > 0 && strings.HasPrefix(lines[k-1], "::") {
 		k--
 	}
-	g := GDoc{Anns: []GAnn{}}
+	g := GDoc{Anns: []GAnn{}, Lines: []H{}}
 	for _, l := range lines[k:] {
-		m := annRe.FindStringSubmatch(l)
-		row, _ := strconv.Atoi(m[3])
-		col, _ := strconv.Atoi(m[4])
-		g.Anns = append(g.Anns, GAnn{Level: hx(m[1]), File: hx(m[2]), Row: row, Col: col, Msg: hx(m[5])})
+		g.Lines = append(g.Lines, hx(l))
+		name, props, data, ok := parseWorkflowCommand(l)
+		if !ok {
+			return g, fmt.Errorf("not a workflow command: %q", head(l))
+		}
+		row, e1 := strconv.Atoi(props["line"])
+		col, e2 := strconv.Atoi(props["col"])
+		if e1 != nil || e2 != nil {
+			return g, fmt.Errorf("workflow command without numeric line/col properties: %q", head(l))
+		}
+		g.Anns = append(g.Anns, GAnn{Level: hx(name), File: hx(props["file"]), Row: row, Col: col, Msg: hx(data)})
 	}
 	p, err := parsePretty(strings.Join(lines[:k], "\n")+"\n", colour)
 	g.Pretty = p
@@ -911,7 +955,16 @@ func parseOutput(format string, noColor bool, out string, r *report.Report) (any
 			f, rr, cc := splitLoc(unhx(row[0]))
 			ks = append(ks, key{f, rr, cc, "", ""})
 		}
-		return c, chk(ks, func(k key) key { return key{k.File, k.Row, k.Col, "", ""} })
+		pr := chk(ks, func(k key) key { return key{k.File, k.Row, k.Col, "", ""} })
+		if pr.OK && r != nil {
+			for _, v := range r.Violations {
+				if !strings.Contains(out, v.Title) || !strings.Contains(out, v.Level) {
+					pr = pred{false, fmt.Sprintf("rule and level are not presented (Location and Description columns only): %q %q", v.Title, v.Level)}
+					break
+				}
+			}
+		}
+		return c, pr
 	case "github":
 		g, err := parseGitHub(out, !noColor)
 		if err != nil {
@@ -1117,7 +1170,8 @@ var titles = []string{"opa-fmt", "use-assignment-operator", "line-length", "pref
 	"no-whitespace-comment", "custom_rule-1", "todo-comment", "directory-package-mismatch", "rule.with.dots"}
 var cats = []string{"style", "bugs", "imports", "custom", "idiomatic", "testing"}
 var fileNames = []string{"a.rego", "b.rego", "dir/c.rego", "a b.rego", "ü/ñ.rego", "x&y<z>.rego", "p/q/r.rego", "/abs/p.rego",
-	"C:\\w\\p.rego", "a.rego.bak", "A.rego", "it's \"q\".rego", "policy_test.rego", "ab.rego", "a,b.rego"}
+	"C:\\w\\p.rego", "a.rego.bak", "A.rego", "it's \"q\".rego", "policy_test.rego", "ab.rego", "a,b.rego", "p%2Cq.rego", "50%.rego",
+	"k=v.rego"}
 var descs = []string{
 	"Rego must not break the law!", "Questionable decision found", "File should be formatted with `opa fmt`",
 	"Use := for assignment", "Line too long", "a <b> & \"c\" 'd' </failure>", "back\\slash \\n and / slash",
@@ -1305,7 +1359,7 @@ func generate(rng *hutil.Rng, tier string) []Case {
 	cs := fixedCases()
 	n := 110
 	if tier == "thorough" {
-		n = 1500
+		n = 4000
 	}
 	for i := 0; i < n; i++ {
 		var nv int
@@ -1379,6 +1433,27 @@ func main() {
 		d, p := parseOutput(os.Args[2], os.Args[3] == "true", string(b), nil)
 		enc := json.NewEncoder(os.Stdout)
 		enc.Encode(map[string]any{"doc": d, "pred": p})
+	case "parsebatch": // manifest: [{"format":..., "file":...}], one result per line on stdout
+		b, err := os.ReadFile(os.Args[2])
+		if err != nil {
+			panic(err)
+		}
+		var items []struct {
+			Format string `json:"format"`
+			File   string `json:"file"`
+		}
+		if err := json.Unmarshal(b, &items); err != nil {
+			panic(err)
+		}
+		enc := json.NewEncoder(os.Stdout)
+		for _, it := range items {
+			ob, err := os.ReadFile(it.File)
+			if err != nil {
+				panic(err)
+			}
+			d, p := parseOutput(it.Format, true, string(ob), nil)
+			enc.Encode(map[string]any{"doc": d, "pred": p})
+		}
 	default:
 		os.Exit(2)
 	}
